@@ -15,6 +15,7 @@ Tie W2: `ccube(dims, interacting_shape=...).count(return_missing_as=...)` on rea
         hypotheses (dim_wf_b, covers_b) on the real dimensions.
 Oracle: brute-force table from the dense arrays (no model, no slicing).
 """
+import collections
 import itertools
 import json
 import math
@@ -70,7 +71,64 @@ def gen_cube(rng, big=False, uncovered=False):
         vals = set(numpy.asarray(specs[i]["arr"]).flatten().tolist()) | {specs[i]["common"]}
         shape[i] = max(1, max(vals) + rng.choice([0, 0, -1]))
     fmt = rng.choice(FORMATS)
-    return {"dims": specs, "shape": shape, "format": list(fmt), "N": N}
+    return add_cube_forms(rng, {"dims": specs, "shape": shape, "format": list(fmt), "N": N})
+
+
+def add_cube_forms(rng, case):
+    """Form of the cube-level arguments (content unchanged): explicit extents as NumPy integer scalars (of a dtype that
+    also holds extent + 1: the working extent is computed in the scalar's dtype, FORM-1b), N passed explicitly as a Python
+    int or a NumPy scalar.  interacting_shape stays a tuple: a list raises TypeError (tuple + list) and an ndarray
+    ValueError in the unchanged code - unsupported forms, not generated."""
+    f = {"N": None, "shape_entries": None}
+    if case["shape"] is not None and rng.random() < 0.4:
+        f["shape_entries"] = [cubelib.scalar_tag(rng, int(e), p=0.7, headroom=1) for e in case["shape"]]
+    if rng.random() < 0.3:
+        f["N"] = cubelib.scalar_tag(rng, case["N"], p=0.7, headroom=0)
+    case["forms"] = f
+    return case
+
+
+def case_form_tags(case):
+    f = case.get("forms") or {}
+    out = ["N=" + (f.get("N") or "not passed")] if case["dims"] else ["N=" + (f.get("N") or "python-int")]
+    if case["shape"] is None:
+        out.append("shape=inferred")
+    else:
+        out.extend("extent=" + t for t in (f.get("shape_entries") or ["python-int"] * len(case["shape"])))
+    return out
+
+
+def gen_dtype_max_cube(rng):
+    """Aimed at F24: a dimension whose largest value is the maximum of an 8-/16-bit dtype (255, 127, 65535, 32767) and is
+    handed over as a NumPy scalar OF THAT DTYPE - as the common (`common=arr.max()`) or as a dict-key coordinate - with the
+    shape mostly inferred.  (32-/64-bit maxima would need a 2^31-cell region and are not generated.)"""
+    top, dt = rng.choice(sorted(cubelib.DTYPE_MAXES.items()))
+    N = rng.randint(1, 8)
+    pool = [0, 1, top - 1, top]
+    col = [rng.choice(pool) for _ in range(N)]
+    col[rng.randrange(N)] = top
+    as_common = rng.random() < 0.6
+    common = top if as_common else rng.choice([0, 1, top - 1])
+    edge = cubelib.make_spec(rng, col, common, vary_form=False)
+    edge["form"] = {"common": "numpy." + dt if as_common else cubelib.scalar_tag(rng, common)}
+    if edge["how"] == "from_array":
+        edge["form"]["arr"] = rng.choice([dt, "int64", dt]) + "/" + rng.choice(["c-contiguous", "strided", "readonly"])
+        if not as_common:                       # the top value has to be a NumPy-scalar dict key: use the constructor
+            edge["how"] = "ctor"
+            edge["order"] = [list(k) for k in cubelib.entries_from_dense(col, common).keys()]
+            del edge["form"]["arr"]
+    if edge["how"] == "ctor":
+        edge["form"]["rowids"] = rng.choice(cubelib.ROWID_FORMS)
+        edge["form"]["coords"] = "numpy." + dt if (not as_common or rng.random() < 0.5) else "python-int"
+    specs = [edge]
+    if rng.random() < 0.5:
+        e2 = rng.randint(1, 3)
+        col2 = [rng.randrange(e2) for _ in range(N)]
+        specs.insert(rng.randrange(2), cubelib.make_spec(rng, col2, cubelib.pick_common(rng, col2, range(e2), rng.choice(["frequent", "rare", "absent"]))))
+    case = {"dims": specs, "shape": None, "format": list(rng.choice(FORMATS)), "N": N}
+    if rng.random() < 0.2:
+        case["shape"] = [max(s["arr"] + [s["common"]]) + 1 for s in specs]
+    return add_cube_forms(rng, case)
 
 
 def gen_lopsided_cube(rng):
@@ -79,7 +137,7 @@ def gen_lopsided_cube(rng):
     specs = [cubelib.make_spec(rng, col, common) for col, common, _ in cols]
     how = rng.choice(["inferred", "exact", "larger"])
     shape = None if how == "inferred" else [e + (rng.choice([0, 1]) if how == "larger" else 0) for _, _, e in cols]
-    return {"dims": specs, "shape": shape, "format": list(rng.choice(FORMATS)), "N": N}
+    return add_cube_forms(rng, {"dims": specs, "shape": shape, "format": list(rng.choice(FORMATS)), "N": N})
 
 
 # --------------------------------------------------------------------------- observation
@@ -111,18 +169,27 @@ def run_cube(case):
     dims = [cubelib.build_dim(s) for s in case["dims"]]
     kind, null = case["format"]
     rma = NAN if kind == "nan" else ((null, False) if kind == "pair" else null)
-    shape = tuple(case["shape"]) if case["shape"] is not None else None
+    cf = case.get("forms") or {}
+    shape = None
+    if case["shape"] is not None:
+        tags = cf.get("shape_entries") or [None] * len(case["shape"])
+        shape = tuple(cubelib.apply_scalar(int(e), t) for e, t in zip(case["shape"], tags))
     out = {"dims": dims, "raised": None}
     try:
         cube = ccube(dims, interacting_shape=shape)
         out["shape"] = tuple(int(e) for e in cube.interacting_shape)
         out["scaffold"] = tuple(int(e) for e in cube.scaffold_shape)
-        kw = {} if dims else {"N": case["N"]}
+        kw = {} if (dims and not cf.get("N")) else {"N": cubelib.apply_scalar(case["N"], cf.get("N"))}
         res = cube.count(return_missing_as=rma, **kw)
     except IndexError as e:
         out["raised"] = "IndexError"
         if "shape" not in out:
             raise
+        return out
+    except (ValueError, TypeError, OverflowError, KeyError, ZeroDivisionError, MemoryError) as e:
+        # never modelled: inside the property's domain it is a violation (judge), outside it the cube is skipped
+        out["raised"] = type(e).__name__
+        out["message"] = str(e)[:200]
         return out
     out["vals"], out["valid"], out["missing"] = abstract_result(res, (kind, null))
     return out
@@ -137,7 +204,7 @@ def judge(case, out):
         if a.size == 0:
             a.shape = (0,) + tuple(s.get("hshape", ()))
     if out["raised"]:
-        return {"raised": out["raised"]}
+        return {"raised": out["raised"], "message": out.get("message", "")}
     shape, scaffold = out["shape"], out["scaffold"]
     if case["shape"] is None:
         want = tuple(int(max(a.flatten().tolist() + [s["common"]])) + 1 for a, s in zip(arrs, case["dims"]))
@@ -204,6 +271,8 @@ def coq_cases(ctx, case, out):
     for combo in itertools.product(*his):
         sliced = [d.sliced(*[int(x) for x in h]) if h else d for d, h in zip(dims, combo)]
         flat = tuple(int(e) for h in combo for e in h)
+        if out["raised"] and out["raised"] != "IndexError":
+            return []                      # not a modelled outcome; judged by the oracle when inside the domain
         if out["raised"]:
             # cannot attribute the IndexError to one block when there are several: only single-block cubes
             if len(list(itertools.product(*his))) > 1:
@@ -236,7 +305,7 @@ def coq_cases(ctx, case, out):
 
 
 def strip(case):
-    return {"dims": case["dims"], "shape": case["shape"], "format": case["format"], "N": case["N"]}
+    return {"dims": case["dims"], "shape": case["shape"], "format": case["format"], "N": case["N"], "forms": case.get("forms")}
 
 
 def exhaustive_cases():
@@ -262,7 +331,13 @@ def run(ctx):
                 "(-7,False), plain 0; plus cubes outside the theorem's domain (extent <= a listed value or the common: NumPy "
                 "aliasing with the margin slot or IndexError) to tie the array model itself; lopsided cubes: N in 30..120, 2-4 one-axis dims of "
                 "extent 2-4 with one frequent category (60-90 % of the rows) and rare categories of 1-3 rows whose last row usually "
-                "lies in the next dimension's frequent category; a case = one sub-cube block, "
+                "lies in the next dimension's frequent category; the FORM of the inputs is varied with the content unchanged "
+                "(from_array from every integer dtype holding the values in C / Fortran / transposed / strided / negative-stride / "
+                "read-only layouts or nested lists; constructor with contiguous, column-view or read-only uint32 row ids; common, explicit "
+                "extents and N as Python ints or NumPy integer scalars, dict-key coordinates as NumPy scalars; commons and coordinates also AT "
+                "the maximum of their 8-/16-bit dtype with inferred shape (dtype-max stream, finding F24); explicit NumPy-scalar extents "
+                "only of dtypes that hold extent+1 (working extent computed in the scalar's dtype, notes FORM-1b); interacting_shape as list/ndarray raises TypeError/ValueError in "
+                "the unchanged code and is not generated); a case = one sub-cube block, "
                 "distinct per literal, non-trivial when N > 0 and it has at least one dimension")
     ctx.trusted = list(core.STD_TRUSTED) + [
         "SetOps: set_intersect_merge_np(base, rowids) = inter_spec base rowids on increasing inputs (property C08)",
@@ -280,9 +355,18 @@ def run(ctx):
 
     cases, metas, found, n_cubes, n_raised, n_unc = [], [], [], 0, 0, 0
 
+    form_dist = collections.Counter()
+
+    n_dtmax = 0
+
     def add(case):
         nonlocal n_cubes, n_raised
         n_cubes += 1
+        for sp in case["dims"]:
+            for t in cubelib.form_tags(sp) or ["ordinary (exhaustive stream)"]:
+                form_dist[t] += 1
+        for t in case_form_tags(case):
+            form_dist[t] += 1
         out = run_cube(case)
         dom = in_domain(case)
         if out["raised"]:
@@ -305,6 +389,9 @@ def run(ctx):
     for i in range(n_rand):
         if i % every == 0:          # interleaved so that the heavier cases (N up to 120) spread over the Coq shards
             add(gen_lopsided_cube(ctx.rng))
+        if i % (2 * every) == 1:
+            add(gen_dtype_max_cube(ctx.rng))
+            n_dtmax += 1
         r = ctx.rng.random()
         case = gen_cube(ctx.rng, big=(r < 0.12), uncovered=(0.12 <= r < 0.2))
         if not in_domain(case):
@@ -318,8 +405,9 @@ def run(ctx):
         for case in exhaustive_cases():
             add(case)
             n_exh += 1
-    ctx.coverage.update({"random_cubes": n_rand, "lopsided_cubes": len(range(0, n_rand, every)), "exhaustive_cubes": n_exh, "cubes": n_cubes, "blocks_compared_in_coq": len(cases),
+    ctx.coverage.update({"random_cubes": n_rand, "lopsided_cubes": len(range(0, n_rand, every)), "dtype_max_cubes": n_dtmax, "exhaustive_cubes": n_exh, "cubes": n_cubes, "blocks_compared_in_coq": len(cases),
                          "cubes_outside_domain": n_unc, "index_errors": n_raised})
+    ctx.coverage["input_forms"] = dict(sorted(form_dist.items()))
     if n_exh:
             ctx.coverage["exhaustive_subspace"] = ("all 2-dimension x 3-row x 3-category x common in {0,1,2,absent} cubes (%d) "
                                             "(a complete sub-space; the random stream is not exhaustive)" % n_exh)
@@ -334,9 +422,17 @@ def run(ctx):
 
     if found:
         found.sort(key=lambda f: (len(f["dims"]), f["N"], len(json.dumps(f))))
-        ctx.report("count:wrong-cell", "a cell of ccube.count() is not the number of rows of that cell / not missing exactly when zero",
-                   {"failing_inputs": found[:10], "count": len(found),
-                    "how": "build the dims (cubelib.build_dim), ccube(dims, interacting_shape=shape).count(return_missing_as=...), compare with the brute-force table"})
+        raised = [f for f in found if "raised" in f["difference"]]
+        wrong = [f for f in found if "raised" not in f["difference"]]
+        if wrong:
+            ctx.report("count:wrong-cell", "a cell of ccube.count() is not the number of rows of that cell / not missing exactly when zero",
+                       {"failing_inputs": wrong[:10], "count": len(wrong),
+                        "how": "build the dims (cubelib.build_dim), ccube(dims, interacting_shape=shape).count(return_missing_as=...), compare with the brute-force table"})
+        for exc in sorted(set(f["difference"]["raised"] for f in raised)):
+            sel = [f for f in raised if f["difference"]["raised"] == exc]
+            ctx.report("count:raised-" + exc, "ccube(...).count() raises %s for a cube inside the property's domain (extents cover every value and the common)" % exc,
+                       {"failing_inputs": sel[:10], "count": len(sel),
+                        "how": "build the dims in the recorded FORM (cubelib.build_dim re-applies spec['form']), ccube(dims, interacting_shape=shape).count(...)"})
     elif res.failing or res.errors or not pr["ok"]:
         what = []
         if not pr["ok"]:
